@@ -86,6 +86,15 @@ pub struct SolveProp {
 }
 
 pub fn model_classes(m: &Model, classes: &mut Vec<String>) {
+    if m.cons.iter().any(|p| {
+        let mut v = p.vars_multi();
+        let n = v.len();
+        v.sort_unstable();
+        v.dedup();
+        v.len() != n
+    }) {
+        classes.push("repeated_variable_in_constraint".into());
+    }
     if m.vars.iter().any(|v| v.has_holes()) {
         classes.push("has_holes".into());
     }
